@@ -9,13 +9,18 @@
 //	        (also inside address / nested actors, as the whole document, and on the leaf decoders directly)
 //	part 3  generated multi-member documents (documented and hostile forms, custom members, duplicates)
 //	part 4  AES sealing: plaintexts x key lengths 0..40 x wrong keys x malformed sealed strings
+//	part 5  histories: a probe value is marshalled before and after codec calls that FAIL (values with a custom
+//	        claim JSON cannot express, documents that cannot be decoded); its document must stay a function of
+//	        the value alone (see history.go)
 //
 // A case is a pure function of (seed, part, index); the case number of a replay file is part*1e9+index.
 package main
 
 import (
 	"fmt"
+	"runtime"
 	"sort"
+	"strings"
 	"time"
 
 	"verif/internal/ev"
@@ -75,7 +80,8 @@ func main() {
 		"part 2 (finite, enumerated completely): catalogue of JSON forms x every registered field of 9 types (incl. RequestObject), also inside address and nested actors, as whole document, malformed documents, actors nested 6..10001, and the 7 leaf decoders directly; " +
 		"part 3: generated documents of 1-10 members (documented / hostile forms per field kind, custom members, case variants, duplicate keys, white space); " +
 		"part 4: AES seal/open over arbitrary byte strings, keys of 16/24/32 bytes, every bad key length 0..40, a positional other-key sweep per case (one flipped bit and one replaced byte at every key byte, shared 8/16/24-byte prefixes, shared last 16 bytes, unrelated, cross-length) for crypto.DecryptAES and for op.NewAESCrypto, eight classes of malformed sealed strings, op.NewAESCrypto. " +
-		"distinct = distinct vectors (part 1: type, collision classes x set/unset, actor depth, decoded|grey-error; part 2: type, position, field, form; part 3: type, twist, first three field kinds, errored; part 4: class, key length, plaintext length bucket) that reached the deciding step")
+		"part 5: histories of 3-10 codec calls on one goroutine (the first share of them on a single P, the rest on 16 goroutines; a failing call optionally on a goroutine of its own): probe value P marshalled + decoded, then 1-3 failing calls (json.Marshal of a rich value Q with one unencodable custom value: non-finite float / chan, func, complex, bool-keyed map / Marshaler returning an error, broken JSON or panicking / cyclic map; as top-level custom claim, nested in a custom claim, in a nested actor's custom claims, in the logout events; or json.Unmarshal of Q's document with one member of the wrong JSON kind) interleaved with other valid values, P marshalled again after them: every document of a valid value is judged against that value alone, equal values must give equal documents, unexplained members are traced in the ledger of earlier values. " +
+		"distinct = distinct vectors (part 5: scheduling, probe type, custom y/n, fault classes, fault positions, own goroutine, length; part 1: type, collision classes x set/unset, actor depth, decoded|grey-error; part 2: type, position, field, form; part 3: type, twist, first three field kinds, errored; part 4: class, key length, plaintext length bucket) that reached the deciding step")
 	run.Assume(
 		"JSON-level reference = encoding/json into map[string]any with UseNumber; BCP 47 reference = golang.org/x/text/language; RFC 3339 and number references are the harness's own (math/big, civil-date arithmetic)",
 		"a registered claim is 'set' iff its omitempty encoding is non-empty; claims without omitempty (IntrospectionResponse.active, all of JWTProfileAssertionClaims / JWTTokenRequest) are always set",
@@ -83,6 +89,7 @@ func main() {
 		"a custom key that equals a registered name case-insensitively (Go's struct decoding folds names) counts as colliding: with an unset registered claim everything is grey; with a set registered claim the decoded field must still hold the registered value",
 		"times beyond +-2^53 are drawn in ~1 % of the time fields; coming back float64-rounded, as zero, or as a decode error is grey, a different value (sign flip) is a violation",
 		"decoders are judged on fresh targets only; numbers in custom claims are float64-exact; strings are valid UTF-8; scope items contain no spaces",
+		"part 5: what a call that cannot succeed returns (error, or the custom Marshaler's own panic) is outside the quantifier and only counted; custom keys that are case variants of registered names are left to part 1; scheduling (one P / 16 goroutines) is a dimension of the exploration, never part of a verdict",
 		"AES: opening under another key is judged only for plaintexts of >= 8 bytes; base64 white space leniency (CR/LF) and opening truncated or tampered sealed strings (CFB has no integrity) are outside the statement and only observed",
 	)
 	if problems := initSpecs(); len(problems) > 0 {
@@ -96,6 +103,8 @@ func main() {
 	nRT := run.N(100_000, 2_000_000)
 	nGen := run.N(60_000, 1_000_000)
 	nAES := run.N(20_000, 300_000)
+	nHist := run.N(16_000, 300_000)
+	nHistSerial := run.N(3_000, 30_000) // of nHist: run on a single P
 
 	if rc := run.ReplayCase(); rc >= 0 {
 		c := &ctx{run: run, t: newTally()}
@@ -111,6 +120,14 @@ func main() {
 			runGeneratedDoc(c, idx)
 		case partAES:
 			runAES(c, idx)
+		case partHistory:
+			if sched := historySched(idx, nHistSerial); sched == schedSingleP {
+				old := runtime.GOMAXPROCS(1)
+				runHistory(c, idx, sched)
+				runtime.GOMAXPROCS(old)
+			} else {
+				runHistory(c, idx, sched)
+			}
 		default:
 			run.HarnessBug(fmt.Sprintf("replay file names case %d of an unknown part", rc))
 		}
@@ -126,6 +143,8 @@ func main() {
 	run.Mandatory("override:exact-collision-with-set-claim", "override:second-generation")
 	run.Mandatory(mandatoryTolerant...)
 	run.Mandatory("aes:roundtrip:key16", "aes:roundtrip:key24", "aes:roundtrip:key32", "aes:wrong-key", "aes:wrong-key:crypto.DecryptAES", "aes:wrong-key:op.NewAESCrypto", "aes:bad-key-length", "aes:malformed-input", "aes:op-crypto")
+
+	run.Mandatory(historyMandatory...)
 
 	const workers = 16
 	tallies := make([]*tally, workers)
@@ -144,9 +163,20 @@ func main() {
 	})
 	timed("roundtrip", func() { ev.Parallel(nRT, workers, func(w, i int) { runRoundTrip(&ctx{run, tallies[w]}, i) }) })
 	timed("generated_documents", func() { ev.Parallel(nGen, workers, func(w, i int) { runGeneratedDoc(&ctx{run, tallies[w]}, i) }) })
+	// part 5 after parts 1-3, so that those see codecs in which nothing has failed yet
+	timed("histories", func() { runHistories(run, tallies, nHist, nHistSerial, workers) })
 	timed("aes", func() { ev.Parallel(nAES, workers, func(w, i int) { runAES(&ctx{run, tallies[w]}, i) }) })
 	flush(run, tallies)
-	run.Extra("sizes", map[string]int{"roundtrip_cases": nRT, "matrix_cases": len(matrix), "generated_documents": nGen, "aes_cases": nAES, "catalogue_forms": len(forms)})
+	run.Extra("sizes", map[string]int{"roundtrip_cases": nRT, "matrix_cases": len(matrix), "generated_documents": nGen, "aes_cases": nAES, "histories": nHist, "histories_on_a_single_P": nHistSerial, "catalogue_forms": len(forms)})
+	histDims := map[string]struct{}{}
+	for _, t := range tallies {
+		for k := range t.distinct {
+			if strings.HasPrefix(k, "hist|") {
+				histDims[k] = struct{}{}
+			}
+		}
+	}
+	run.Extra("history_distinct_vectors", len(histDims))
 	run.Extra("part_wall_s", walls) // informational only: no verdict depends on it
 	run.Finish()
 }
